@@ -608,9 +608,9 @@ Proof.
   split; [auto|]. split; [eapply tab_frame_trans_same; eauto|eapply lists_frame_trans; eauto].
 Qed.
 
-Lemma bl_free_inv v U X s a :
+Lemma bl_free_inv v U X s a keep :
   VamInvU c v U X -> slot_is v s a -> ~ In s X -> a_kind a = 1 ->
-  let '(v', r) := bl_free c v (a_lref a) s in
+  let '(v', r) := bl_free c v (a_lref a) s keep in
   match r with
   | OK _ => kept v v' U (s :: X)
   | ER _ => kept v v' U X
@@ -756,9 +756,9 @@ Lemma kept_keptS v v' U X S : kept v v' U X -> keptS v v' U X S.
 Proof. intros (A & B & C). split; [auto|]. split; [eapply tab_frame_weaken; [exact B|intros ? []]|auto]. Qed.
 
 (* Free of a block allocation followed by marking the object unallocated *)
-Lemma free_block_slot_inv v U X s a :
+Lemma free_block_slot_inv v U X s a keep :
   VamInvU c v U X -> slot_is v s a -> ~ In s X -> a_kind a = 1 ->
-  let '(v', r) := bl_free c v (a_lref a) s in
+  let '(v', r) := bl_free c v (a_lref a) s keep in
   match r with
   | OK _ => keptS v (set_alloc v' s (set_allocated (get_alloc v' s) false)) U X [s] /\
             a_allocated (get_alloc (set_alloc v' s (set_allocated (get_alloc v' s) false)) s) = false
@@ -766,8 +766,8 @@ Lemma free_block_slot_inv v U X s a :
   | _ => True
   end.
 Proof.
-  intros HI Hsl HnX Hk. pose proof (bl_free_inv v U X s a HI Hsl HnX Hk) as F.
-  destruct (bl_free c v (a_lref a) s) as (v' & r). destruct r as [[]|code| |]; auto.
+  intros HI Hsl HnX Hk. pose proof (bl_free_inv v U X s a keep HI Hsl HnX Hk) as F.
+  destruct (bl_free c v (a_lref a) s keep) as (v' & r). destruct r as [[]|code| |]; auto.
   destruct F as (I1 & T1 & L1).
   assert (HX : VamInvU c (set_alloc v' s (set_allocated (get_alloc v' s) false)) U X).
   { eapply VamInvU_unalloc_dang; [exact I1|left; reflexivity| |].
@@ -814,8 +814,8 @@ Proof.
   - split; [split; [auto|split; [apply tab_frame_refl|apply lists_frame_refl]]|intros ? []].
   - inversion Hnd as [|? ? Hs Hnd']; subst.
     destruct (Hbs s (or_introl eq_refl)) as (HX & a & Sa & Ka & La).
-    pose proof (free_block_slot_inv v U X s a HI Sa HX Ka) as F. rewrite La in F.
-    destruct (bl_free c v lr s) as (v1 & r). destruct r as [[]|code| |]; auto.
+    pose proof (free_block_slot_inv v U X s a true HI Sa HX Ka) as F. rewrite La in F.
+    destruct (bl_free c v lr s true) as (v1 & r). destruct r as [[]|code| |]; auto.
     destruct F as (K1 & D1). set (v1' := set_alloc v1 s (set_allocated (get_alloc v1 s) false)) in *.
     assert (Hbs' : block_slots v1' lr X tl).
     { eapply block_slots_frame with (v := v) (S := [s]); [split; [auto|]; intros; apply Hbs; right; auto|apply K1|].
@@ -1028,5 +1028,19 @@ Proof.
   cbn [v_m set_m] in DF.
   pose proof (derived_obs_eq _ _ _ _ _ _ DF DFin) as E.
   split; [eapply kept_obs; eauto|]. exists (set_blocks l []). split; [apply DFin|reflexivity].
+Qed.
+
+Lemma create_min_blocks_inv n : forall v U X lr size,
+  VamInvU c v U X ->
+  let '(v', r) := create_min_blocks c n v lr size in kept v v' U X.
+Proof.
+  induction n as [|k IH]; intros v U X lr size HI; cbn [create_min_blocks].
+  - split; [auto|split; [apply tab_frame_refl|apply lists_frame_refl]].
+  - destruct (get_blist v lr) as [l|] eqn:Hg.
+    + pose proof (create_block_inv v U X lr l size HI Hg) as C.
+      destruct (create_block c v lr size) as (v1 & r). destruct r; try exact C.
+      specialize (IH v1 U X lr size (proj1 C)). destruct (create_min_blocks c k v1 lr size) as (v2 & r2).
+      eapply kept_trans; eauto.
+    + unfold create_block. rewrite Hg. split; [auto|split; [apply tab_frame_refl|apply lists_frame_refl]].
 Qed.
 End WithCfg.
